@@ -320,3 +320,108 @@ func genX(r *lib.Rng, wf bool, maxNodes int) *gg.Case {
 	}
 	return &gg.Case{Forest: []gg.Graph{g}, Input: gg.MapOf(kvs...)}
 }
+
+// zeroify (round 6) turns a genX Workflow case into one in which a node or END is triggered WITHOUT DATA — the clause
+// "(the zero value when there are none)", which only a Workflow can reach (in a Graph every control edge carries data):
+//
+//	strip-end / strip-node  every data input of END / of one node becomes a dependency without data (AddDependency);
+//	                        data-only inputs of it are dropped: the target is triggered with the zero value whenever it runs
+//	end-by-branch           END becomes an end of one of the (data-less) Workflow branches and some rows of its table select
+//	                        it: END is routed by the branch while its data predecessors may lie on an arm that is skipped
+//
+// One to two of them are applied. All edges stay forward edges, so the rule evaluator judges the case.
+func zeroify(r *lib.Rng, c *gg.Case) {
+	g := &c.Forest[0]
+	del := func(ks []uint64, k uint64) []uint64 {
+		out := []uint64{}
+		for _, x := range ks {
+			if x != k {
+				out = append(out, x)
+			}
+		}
+		return out
+	}
+	hasCtrl := func(t uint64) bool {
+		for i := range g.Nodes {
+			if isCtrlPred(&g.Nodes[i], t) {
+				return true
+			}
+		}
+		return false
+	}
+	strip := func(t uint64) {
+		if !hasCtrl(t) {
+			return
+		}
+		for i := range g.Nodes {
+			n := &g.Nodes[i]
+			n.DSucc = del(n.DSucc, t)
+			dm := []gg.KN{}
+			for _, kn := range n.DMap {
+				if kn.Key != t {
+					dm = append(dm, kn)
+				}
+			}
+			n.DMap = dm
+			if len(n.DMap) == 0 {
+				n.DMap = nil
+			}
+		}
+		if n := g.NodeAt(t); n != nil && n.Kind == "pass" {
+			n.Kind = "lambda" // the type of a pass-through node is inferred from a data input
+		}
+	}
+	endByBranch := func() {
+		var srcs []int
+		for i := range g.Nodes {
+			if len(g.Nodes[i].Branches) > 0 {
+				srcs = append(srcs, i)
+			}
+		}
+		if len(srcs) == 0 {
+			return
+		}
+		n := &g.Nodes[srcs[r.Intn(len(srcs))]]
+		b := &n.Branches[r.Intn(len(n.Branches))]
+		if !hasU(b.Ends, gg.END) {
+			b.Ends = append(b.Ends, gg.END)
+		}
+		if len(b.Table) == 0 {
+			b.Table = [][]uint64{{gg.END}}
+			return
+		}
+		hit := false
+		for i := range b.Table {
+			if r.Chance(1, 2) || (i == len(b.Table)-1 && !hit) {
+				hit = true
+				if b.Single {
+					b.Table[i] = []uint64{gg.END}
+				} else if !hasU(b.Table[i], gg.END) {
+					b.Table[i] = append(append([]uint64{}, b.Table[i]...), gg.END)
+				}
+			}
+		}
+	}
+	node := func() uint64 {
+		return g.Nodes[1+r.Intn(len(g.Nodes)-1)].Key
+	}
+	switch r.Intn(6) {
+	case 0:
+		strip(gg.END)
+	case 1:
+		strip(node())
+	case 2:
+		endByBranch()
+	case 3:
+		endByBranch()
+		strip(node())
+	case 4:
+		strip(gg.END)
+		strip(node())
+	default:
+		endByBranch()
+		if r.Chance(1, 2) {
+			strip(gg.END)
+		}
+	}
+}
